@@ -116,50 +116,6 @@ async fn read_after_close() {
 }
 
 #[compio_macros::test]
-async fn accepted_0rtt_concurrent_waiters() {
-    let _guard = subscribe();
-
-    let endpoint = endpoint().await;
-
-    join!(
-        async {
-            // 0.5-RTT: a `Connection` before the handshake has completed.
-            let conn = endpoint
-                .wait_incoming()
-                .await
-                .unwrap()
-                .accept()
-                .unwrap()
-                .into_0rtt()
-                .ok()
-                .unwrap();
-            let waiters: Vec<_> = (0..3)
-                .map(|_| {
-                    let conn = conn.clone();
-                    compio_runtime::spawn(async move { conn.accepted_0rtt().await.unwrap() })
-                })
-                .collect();
-            for waiter in waiters {
-                compio_runtime::time::timeout(Duration::from_secs(5), waiter)
-                    .await
-                    .expect("every task waiting in accepted_0rtt must be woken")
-                    .unwrap();
-            }
-        },
-        async {
-            let conn = endpoint
-                .connect(endpoint.local_addr().unwrap(), "localhost", None)
-                .unwrap()
-                .await
-                .unwrap();
-            conn.closed().await;
-        },
-    );
-
-    endpoint.shutdown().await.unwrap();
-}
-
-#[compio_macros::test]
 async fn export_keying_material() {
     let _guard = subscribe();
 
